@@ -1155,13 +1155,17 @@ struct Cx {
     field: &'static str,
     evals: usize,
     fails: usize,
+    /// failure records printed per kind (`what`): at most 10 each, every failure is counted
+    printed: BTreeMap<String, usize>,
     prog: Progress,
 }
 
 impl Cx {
     fn fail(&mut self, what: &str, input: &str, expected: &str, actual: &str) {
         self.fails += 1;
-        if self.fails <= 200 {
+        let k = self.printed.entry(what.split(": ").take(2).collect::<Vec<_>>().join(": ")).or_insert(0);
+        *k += 1;
+        if *k <= 10 {
             println!(
                 "{{\"field\":{},\"what\":{},\"input\":{},\"expected\":{},\"actual\":{}}}",
                 jstr(self.field), jstr(what), jstr(input), jstr(expected), jstr(actual)
@@ -1231,14 +1235,10 @@ fn ref_mul<E: FieldElement>(a: &[E], b: &[E]) -> Vec<E> {
         return vec![];
     }
     let mut out = vec![E::ZERO; a.len() + b.len() - 1];
-    for k in 0..out.len() {
-        let mut s = E::ZERO;
-        for i in 0..a.len() {
-            if k >= i && k - i < b.len() {
-                s = s + a[i] * b[k - i];
-            }
+    for i in 0..a.len() {
+        for j in 0..b.len() {
+            out[i + j] = out[i + j] + a[i] * b[j];
         }
-        out[k] = s;
     }
     out
 }
@@ -1552,7 +1552,7 @@ fn ck_pow<E: Gen>(cx: &mut Cx, b: E, s: E, n: usize) {
         }
         cx.ck(got == want, "get_power_series(b,n)[i] != b^i", &inp, &|| (fv(&want), fv(&got)));
         if let Some(bv) = b.val() {
-            let ok = got.len() == n && got.iter().enumerate().all(|(i, e)| e.val() == Some(powmod(bv, i as u128, E::P)));
+            let ok = got.len() == n && upowers(bv, 1, n, E::P).iter().zip(&got).all(|(w, e)| e.val() == Some(*w));
             cx.ck(ok, "get_power_series(b,n)[i] != powmod(b,i)", &inp, &|| ("b^i mod p".into(), fv(&got)));
         }
     });
@@ -1566,10 +1566,24 @@ fn ck_pow<E: Gen>(cx: &mut Cx, b: E, s: E, n: usize) {
         }
         cx.ck(got == want, "get_power_series_with_offset(b,s,n)[i] != s*b^i", &inp, &|| (fv(&want), fv(&got)));
         if let (Some(bv), Some(sv)) = (b.val(), s.val()) {
-            let ok = got.len() == n && got.iter().enumerate().all(|(i, e)| e.val() == Some(mulmod(sv, powmod(bv, i as u128, E::P), E::P)));
+            let ok = got.len() == n && upowers(bv, sv, n, E::P).iter().zip(&got).all(|(w, e)| e.val() == Some(*w));
             cx.ck(ok, "get_power_series_with_offset(b,s,n)[i] != s*powmod(b,i)", &inp, &|| ("s*b^i mod p".into(), fv(&got)));
         }
     });
+}
+
+/// s * b^i mod p for i < n: running product, cross-checked against square-and-multiply at the last index
+fn upowers(b: u128, s: u128, n: usize, p: u128) -> Vec<u128> {
+    let mut out = Vec::with_capacity(n);
+    let mut pw = 1 % p;
+    for _ in 0..n {
+        out.push(mulmod(s, pw, p));
+        pw = mulmod(pw, b, p);
+    }
+    if n > 0 {
+        assert_eq!(out[n - 1], mulmod(s, powmod(b, n as u128 - 1, p), p), "harness: running product != powmod");
+    }
+    out
 }
 
 /// equal lengths: pointwise results; unequal lengths: both functions must panic
@@ -1609,7 +1623,10 @@ fn ck_binv<E: Gen>(cx: &mut Cx, v: &[E]) {
             && (0..v.len()).all(|i| if v[i] == E::ZERO { got[i] == E::ZERO } else { v[i] * got[i] == E::ONE && got[i] == v[i].inv() });
         cx.ck(ok, "batch_inversion(v)[i] is not 0 for v[i]=0 / the inverse of v[i] otherwise", &inp, &|| ("pointwise inverses".into(), fv(&got)));
         if E::P != 0 {
-            let ok = got.len() == v.len() && (0..v.len()).all(|i| got[i].val() == v[i].val().map(|x| invmod(x, E::P)));
+            // every index for short vectors; both ends and a stride for long ones (invmod on u128 is slow for f128)
+            let n = v.len();
+            let ok = got.len() == n
+                && (0..n).filter(|i| n <= 130 || *i < 48 || *i + 48 >= n || i % 16 == 0).all(|i| got[i].val() == v[i].val().map(|x| invmod(x, E::P)));
             cx.ck(ok, "batch_inversion(v)[i] != invmod(v[i])", &inp, &|| ("v[i]^(p-2) mod p".into(), fv(&got)));
         }
     });
@@ -2019,7 +2036,7 @@ fn falsify(seed: u64, n: usize) {
             let mut tot = (0usize, 0usize);
             macro_rules! field {
                 ($e:ty) => {{
-                    let mut cx = Cx { field: <$e as Gen>::NAME, evals: 0, fails: 0, prog: prog.clone() };
+                    let mut cx = Cx { field: <$e as Gen>::NAME, evals: 0, fails: 0, printed: BTreeMap::new(), prog: prog.clone() };
                     boundary_f::<$e>(&mut cx, &mut r);
                     for k in 0..n {
                         round::<$e>(&mut cx, &mut r, k);
@@ -2030,7 +2047,7 @@ fn falsify(seed: u64, n: usize) {
             }
             macro_rules! mixed_pair {
                 ($b:ty, $e:ty, $name:expr) => {{
-                    let mut cx = Cx { field: $name, evals: 0, fails: 0, prog: prog.clone() };
+                    let mut cx = Cx { field: $name, evals: 0, fails: 0, printed: BTreeMap::new(), prog: prog.clone() };
                     mixed::<$b, $e>(&mut cx, &mut r, n);
                     tot.0 += cx.evals;
                     tot.1 += cx.fails;
